@@ -51,6 +51,17 @@ const T_Z: TypeSpec = TypeSpec { name: "Val<Z>", nvals: 1, join: false };
 const T_TR: TypeSpec = TypeSpec { name: "Val<Tr>", nvals: 2, join: false };
 const T_OPT: TypeSpec = TypeSpec { name: "Option<u32>", nvals: 2, join: false };
 
+/// what mk(0) and mk(1) are, per element type (for the written-out cases)
+const ELEMENTS: [(&str, &str); 7] = [
+    ("u8", "mk(0) = 0u8, mk(1) = 1u8"),
+    ("u64", "mk(0) = 0u64, mk(1) = 1u64"),
+    ("String", "mk(0) = \"\", mk(1) = \"ab\""),
+    ("List<u8>", "mk(0) = a fresh List::from(vec![]), mk(1) = a fresh List::from(vec![1u8, 2])"),
+    ("Val<Z>", "mk(_) = Val(host::Z::new()) (zero-sized, drop-tracked)"),
+    ("Val<Tr>", "mk(v) = Val(host::Tr::new(v)) (24 bytes, drop-tracked, compared by payload)"),
+    ("Option<u32>", "mk(0) = None, mk(1) = Some(7)"),
+];
+
 /// one search: a root, a depth, the element types it is run for
 #[derive(Clone, Debug)]
 struct Search {
@@ -63,6 +74,8 @@ struct Search {
 struct Bounds {
     depth_empty: usize,
     depth_seed: usize,
+    /// depth from the one-handle seeds whose buffer is exactly full (length 4, 8, 16)
+    depth_seed_full: usize,
     /// depth of the searches for `Option<u32>` (quick only; thorough treats it like the others)
     depth_opt: usize,
     swap_all_pairs: bool,
@@ -71,10 +84,13 @@ struct Bounds {
 
 fn bounds(tier: Tier) -> Bounds {
     match tier {
-        Tier::Quick => Bounds { depth_empty: 4, depth_seed: 2, depth_opt: 2, swap_all_pairs: false, chunk: 12 },
-        Tier::Thorough => Bounds { depth_empty: 6, depth_seed: 3, depth_opt: 0, swap_all_pairs: true, chunk: 12 },
+        Tier::Quick => Bounds { depth_empty: 4, depth_seed: 2, depth_seed_full: 3, depth_opt: 3, swap_all_pairs: true, chunk: 12 },
+        Tier::Thorough => Bounds { depth_empty: 6, depth_seed: 3, depth_seed_full: 4, depth_opt: 0, swap_all_pairs: true, chunk: 12 },
     }
 }
+
+/// seed lengths at which the buffer is exactly full (the next push relocates it)
+const FULL_LENS: [usize; 3] = [4, 8, 16];
 
 fn searches(tier: Tier) -> Vec<Search> {
     let b = bounds(tier);
@@ -90,7 +106,9 @@ fn searches(tier: Tier) -> Vec<Search> {
     for len in SEED_LENS {
         for shape in [Shape::One, Shape::Aliased, Shape::Distinct] {
             for origin in [Side::Rust, Side::Script] {
-                v.push(Search { root: Root { shape, len, origin }, depth: b.depth_seed, types: main.clone() });
+                let full = shape == Shape::One && FULL_LENS.contains(&len);
+                let depth = if full { b.depth_seed_full } else { b.depth_seed };
+                v.push(Search { root: Root { shape, len, origin }, depth, types: main.clone() });
             }
         }
     }
@@ -252,7 +270,7 @@ fn case_json(ty: &TypeSpec, root: &Root, hist: &[Step], step: Step, fail_at: Opt
         "op": step.text(),
         "op_kind": step.op.kind(),
         "op_side": step.side.name(),
-        "note": "mk(0)/mk(1) are the two elements of the type (u8/u64: 0, 1; String: \"\", \"ab\"; List<u8>: [], [1, 2]; Val<Z>: Z; Val<Tr>: payload 0/1; Option<u32>: None, Some(7))",
+        "mk": ELEMENTS.iter().find(|e| e.0 == ty.name).map(|e| e.1),
     });
     if let Some(f) = failed {
         c["failed_step"] = json!({"text": f.text(), "kind": f.op.kind(), "side": f.side.name(), "index": fail_at});
@@ -536,14 +554,15 @@ impl Check for C15 {
                 "indices": "{0, 1, len-1, len, len+1, MAX}",
                 "depth_from_empty_state": b.depth_empty,
                 "depth_from_seed_states": b.depth_seed,
+                "depth_from_one_handle_seeds_of_length_4_8_16": b.depth_seed_full,
                 "seed_lengths": SEED_LENS,
                 "seed_shapes": ["one handle", "two handles on the list", "two handles on two lists (second = [mk(1)] made by the other side)"],
                 "seed_made_by": ["rust", "script"],
                 "swap_index_pairs": if b.swap_all_pairs { "all (i, j) of the index set" } else { "i in the index set, j in {0, len-1, len, MAX}" },
                 "cut_vs_design": if cfg.tier == Tier::Quick {
-                    "seeds searched to depth 2 (not 4); Option<u32> only from the empty state to depth 2; swap j restricted; new lists go to the lowest free slot; literals [] [a] [0,1] [1,0]"
+                    "seeds searched to depth 2 (one-handle seeds of length 4, 8, 16: depth 3), not 4; Option<u32> only from the empty state to depth 3; a new list always goes to the lowest free slot and is only compared when no slot is free; literals are [] [a] [0,1] [1,0]"
                 } else {
-                    "seeds searched to depth 3 (not 6); new lists go to the lowest free slot; literals [] [a] [0,1] [1,0]"
+                    "seeds searched to depth 3 (one-handle seeds of length 4, 8, 16: depth 4), not 6; a new list always goes to the lowest free slot and is only compared when no slot is free; literals are [] [a] [0,1] [1,0]"
                 },
                 "searches": p.searches.len(),
                 "examples": per_search,
@@ -553,7 +572,7 @@ impl Check for C15 {
         }
     }
     fn case_timeout_s(&self, cfg: &Cfg) -> f64 {
-        cfg.tier.pick(30.0, 120.0)
+        cfg.tier.pick(10.0, 120.0)
     }
 }
 
